@@ -37,6 +37,7 @@ from bqskit.ir.gates.constant.s import SGate
 from bqskit.ir.gates.constant.sdg import SdgGate
 from bqskit.ir.gates.constant.sqrtcnot import SqrtCNOTGate
 from bqskit.ir.gates.constant.sqrtiswap import SqrtISwapGate
+from bqskit.ir.gates.constant.sqrtt import SqrtTGate
 from bqskit.ir.gates.constant.swap import SwapGate
 from bqskit.ir.gates.constant.sx import SXGate
 from bqskit.ir.gates.constant.sycamore import SycamoreGate
@@ -237,6 +238,7 @@ class OPENQASMVisitor(Visitor):
         self.gate_defs['csx'] = GateDef('csx', 0, 2, SqrtCNOTGate())
         self.gate_defs['cv'] = GateDef('cv', 0, 2, SqrtCNOTGate())
         self.gate_defs['sqisw'] = GateDef('sqisw', 0, 2, SqrtISwapGate())
+        self.gate_defs['st'] = GateDef('st', 0, 1, SqrtTGate())
         self.gate_defs['swap'] = GateDef('swap', 0, 2, SwapGate())
         self.gate_defs['cswap'] = GateDef(
             'cswap', 0, 3, ControlledGate(SwapGate()),
